@@ -179,9 +179,9 @@ def find_const(src: str, name: str, nth: int = None):
 
 
 def find_struct(src: str, name: str):
-    """Text of `[pub] struct NAME[<..>] [where ..] { .. }` (must be unique)."""
+    """Text of `[pub] struct|enum NAME[<..>] [where ..] { .. }` (must be unique)."""
     masked = mask(src)
-    ms = list(re.finditer(r"^[ \t]*(pub(\s*\([^)]*\))?\s+)?struct\s+" + re.escape(name) + r"\b", masked, re.M))
+    ms = list(re.finditer(r"^[ \t]*(pub(\s*\([^)]*\))?\s+)?(struct|enum)\s+" + re.escape(name) + r"\b", masked, re.M))
     if len(ms) != 1:
         raise LostAnchor(f"struct {name}: found {len(ms)} definitions")
     a = ms[0].start()
